@@ -1,35 +1,100 @@
-// C09 harness: drives the eight loser tree classes of tlx/container/loser_tree.hpp through the caller
-// protocol of the model (coq/C09/LoserTree.v, [drive]) and prints the sequence of min_source() values.
-// Case line:  <P|C><G|U|V><S|N> <sentinel> <seq> <seq> ...   with <seq> = "-" (empty) or "k,k,k".
-// V = unguarded class driven the way multiway_merge_loser_tree_combined does: keys may exceed the sentinel, the tree is
-// consulted only while some current key beats the sentinel (coq/C09/Spec.v, [drive_g]).
-// Output: one line per case, sources separated by blanks, invalid_ printed as "-".
+// C09 harness: drives the loser tree classes of tlx/container/loser_tree.hpp through the caller protocol of the
+// model (coq/C09/LoserTree.v [drive], coq/C09/Spec.v [drive_g]) and prints the sequence of min_source() values.
+//
+// Case line:  <class>[:<elem>:<cmp>:<via>] <sentinel> <seq> <seq> ...     with <seq> = "-" (empty) or "k,k,k"
+//   <class> = <P|C><G|U|V><S|N>   pointer/copy, guarded/unguarded/unguarded-any-keys, stable/unstable
+//             (V: keys may exceed the sentinel, the tree is consulted only while some current key beats it, as
+//              multiway_merge_loser_tree_combined does)
+//   <elem>  = e1 | e8 | e16 | e17 | e24   ValueType of that many bytes (default e8); 1, 8, 16 bytes make the
+//             LoserTree / LoserTreeUnguarded switch pick the copy classes, 17 and 24 bytes the pointer classes
+//   <cmp>   = lt | gt | st+ | st- | df    KeyLess, KeyGreater, stateful comparator object (ascending / descending; a
+//             default-constructed one is deliberately useless), df = the class's default template argument
+//             std::less<ValueType> and the constructor's default comparator argument
+//   <via>   = d | s | m                   class named directly / through the tlx::LoserTree<> or tlx::LoserTreeUnguarded<>
+//             switch alias (the P|C letter is then only a hint) / directly and then move-constructed (PG classes)
+// Output: one line per case, sources separated by blanks, invalid_ printed as "-"; "?..." for a malformed case.
 #include <tlx/container/loser_tree.hpp>
 
 #include <cstdint>
 #include <cstdio>
 #include <cstdlib>
 #include <fstream>
+#include <functional>
 #include <iostream>
 #include <sstream>
 #include <string>
+#include <type_traits>
+#include <utility>
 #include <vector>
 
-// key type with a payload, compared on the key only (equivalent != identical)
-struct Key {
-    int key = 0;
-    int payload = 0;
-    Key() = default;
-    Key(int k, int p) : key(k), payload(p) {}
+// ------------------------------------------------------------------------------------------------ element types
+struct E1 {
+    std::uint8_t key = 0;
+    E1() = default;
+    E1(long k, int) : key(static_cast<std::uint8_t>(k)) {}
 };
+struct E8 {
+    std::int32_t key = 0;
+    std::int32_t payload = 0;
+    E8() = default;
+    E8(long k, int p) : key(static_cast<std::int32_t>(k)), payload(p) {}
+};
+struct E16 {
+    std::int64_t key = 0;
+    std::int64_t payload = 0;
+    E16() = default;
+    E16(long k, int p) : key(k), payload(p) {}
+};
+struct __attribute__((packed)) E17 {
+    std::int32_t key = 0;
+    char pad[13] = { 0 };
+    E17() = default;
+    E17(long k, int p) : key(static_cast<std::int32_t>(k)) { pad[0] = static_cast<char>(p); }
+};
+struct E24 {
+    std::int64_t key = 0;
+    std::int64_t a = 0, b = 0;
+    E24() = default;
+    E24(long k, int p) : key(k), a(p), b(~static_cast<std::int64_t>(p)) {}
+};
+static_assert(sizeof(E1) == 1 && sizeof(E8) == 8 && sizeof(E16) == 16 && sizeof(E17) == 17 && sizeof(E24) == 24, "element sizes");
+
+template <typename T>
+static long key_of(const T& x) { return static_cast<long>(x.key); }
+// operator< for the default comparator std::less<ValueType>
+static bool operator<(const E1& a, const E1& b) { return key_of(a) < key_of(b); }
+static bool operator<(const E8& a, const E8& b) { return key_of(a) < key_of(b); }
+static bool operator<(const E16& a, const E16& b) { return key_of(a) < key_of(b); }
+static bool operator<(const E17& a, const E17& b) { return key_of(a) < key_of(b); }
+static bool operator<(const E24& a, const E24& b) { return key_of(a) < key_of(b); }
+
+// ------------------------------------------------------------------------------------------------ comparators
+template <typename T>
 struct KeyLess {
-    bool operator()(const Key& a, const Key& b) const { return a.key < b.key; }
+    bool operator()(const T& a, const T& b) const { return key_of(a) < key_of(b); }
+};
+template <typename T>
+struct KeyGreater {
+    bool operator()(const T& a, const T& b) const { return key_of(b) < key_of(a); }
+};
+//! comparator with state: direction and a call counter; a default-constructed one never says "less"
+template <typename T>
+struct Stateful {
+    int dir = 0;
+    long* calls = nullptr;
+    Stateful() = default;
+    Stateful(int d, long* c) : dir(d), calls(c) {}
+    bool operator()(const T& a, const T& b) const {
+        if (calls) ++*calls;
+        if (dir > 0) return key_of(a) < key_of(b);
+        if (dir < 0) return key_of(b) < key_of(a);
+        return false;
+    }
 };
 
-using Seqs = std::vector<std::vector<Key> >;
-
-template <typename LT>
-static void drive(LT& lt, const Seqs& seqs, bool guarded, std::string& out) {
+// ------------------------------------------------------------------------------------------------ caller loops
+template <typename LT, typename T>
+static void drive(LT& lt, const std::vector<std::vector<T> >& seqs, bool guarded, std::string& out) {
     using Source = typename LT::Source;
     const Source k = static_cast<Source>(seqs.size());
     std::vector<size_t> pos(k, 0);
@@ -56,11 +121,11 @@ static void drive(LT& lt, const Seqs& seqs, bool guarded, std::string& out) {
 }
 
 // unguarded tree, arbitrary keys: stop as soon as no current key beats the sentinel
-template <typename LT>
-static void drive_general(LT& lt, const Seqs& seqs, const Key& sentinel, bool stable, std::string& out) {
+template <typename LT, typename T, typename Cmp>
+static void drive_general(LT& lt, const std::vector<std::vector<T> >& seqs, const T& sentinel, const Cmp& less,
+                          bool stable, std::string& out) {
     using Source = typename LT::Source;
     const Source k = static_cast<Source>(seqs.size());
-    KeyLess less;
     std::vector<size_t> pos(k, 0);
     for (Source i = 0; i < k; ++i) lt.insert_start(&seqs[i][0], i, false);
     lt.init();
@@ -68,7 +133,7 @@ static void drive_general(LT& lt, const Seqs& seqs, const Key& sentinel, bool st
         bool any = false;
         for (Source i = 0; i < k; ++i) {
             if (pos[i] >= seqs[i].size()) continue;
-            const Key& h = seqs[i][pos[i]];
+            const T& h = seqs[i][pos[i]];
             if (stable ? !less(sentinel, h) : less(h, sentinel)) any = true;
         }
         if (!any) break;
@@ -83,21 +148,95 @@ static void drive_general(LT& lt, const Seqs& seqs, const Key& sentinel, bool st
             break;
     }
 }
-template <typename LT>
-static void run_general(const Seqs& seqs, const Key& sentinel, bool stable, std::string& out) {
-    LT lt(static_cast<typename LT::Source>(seqs.size()), sentinel, KeyLess());
-    drive_general(lt, seqs, sentinel, stable, out);
+
+struct Flavor {
+    char mode;       // G, U, V
+    bool stable;
+    bool pass_cmp;   // false: rely on the constructor's default comparator argument
+    char via;        // d, s, m
+};
+
+template <typename LT, typename T, typename Cmp>
+static void run_guarded(const std::vector<std::vector<T> >& seqs, const Cmp& cmp, const Flavor& f, std::string& out) {
+    using Source = typename LT::Source;
+    const Source k = static_cast<Source>(seqs.size());
+    if (f.via == 'm') {
+        if constexpr (std::is_move_constructible<LT>::value) {
+            LT lt0 = f.pass_cmp ? LT(k, cmp) : LT(k);
+            LT lt(std::move(lt0));
+            drive(lt, seqs, true, out);
+        } else {
+            out = "?not-movable";
+        }
+        return;
+    }
+    if (f.pass_cmp) { LT lt(k, cmp); drive(lt, seqs, true, out); }
+    else { LT lt(k); drive(lt, seqs, true, out); }
 }
 
-template <typename LT>
-static void run_guarded(const Seqs& seqs, std::string& out) {
-    LT lt(static_cast<typename LT::Source>(seqs.size()), KeyLess());
-    drive(lt, seqs, true, out);
+template <typename LT, typename T, typename Cmp>
+static void run_unguarded(const std::vector<std::vector<T> >& seqs, const T& sentinel, const Cmp& cmp, const Flavor& f,
+                          std::string& out) {
+    using Source = typename LT::Source;
+    const Source k = static_cast<Source>(seqs.size());
+    if (f.pass_cmp) {
+        LT lt(k, sentinel, cmp);
+        if (f.mode == 'V') drive_general(lt, seqs, sentinel, cmp, f.stable, out); else drive(lt, seqs, false, out);
+    } else {
+        LT lt(k, sentinel);
+        if (f.mode == 'V') drive_general(lt, seqs, sentinel, cmp, f.stable, out); else drive(lt, seqs, false, out);
+    }
 }
-template <typename LT>
-static void run_unguarded(const Seqs& seqs, const Key& sentinel, std::string& out) {
-    LT lt(static_cast<typename LT::Source>(seqs.size()), sentinel, KeyLess());
-    drive(lt, seqs, false, out);
+
+template <typename T, typename Cmp>
+static void dispatch(bool P, const Flavor& f, const std::vector<std::vector<long> >& keys, long sent, const Cmp& cmp,
+                     std::string& out) {
+    std::vector<std::vector<T> > seqs;
+    int serial = 0;
+    for (const auto& ks : keys) {
+        std::vector<T> s;
+        for (long x : ks) s.emplace_back(x, ++serial);
+        seqs.push_back(std::move(s));
+    }
+    const T sentinel(sent, -1);
+    if (f.mode != 'G')
+        for (const auto& q : seqs) if (q.empty()) { out = "?empty-sequence-unguarded"; return; }
+    // The switch templates select copy or pointer classes by sizeof(ValueType); which one is an implementation detail
+    // the property does not fix (the two differ observably only in the report made when no live player is left).
+    const bool S = f.stable;
+    if (f.via == 's') {
+        if (f.mode == 'G') {
+            if (S) run_guarded<tlx::LoserTree<true, T, Cmp> >(seqs, cmp, f, out);
+            else run_guarded<tlx::LoserTree<false, T, Cmp> >(seqs, cmp, f, out);
+        } else {
+            if (S) run_unguarded<tlx::LoserTreeUnguarded<true, T, Cmp> >(seqs, sentinel, cmp, f, out);
+            else run_unguarded<tlx::LoserTreeUnguarded<false, T, Cmp> >(seqs, sentinel, cmp, f, out);
+        }
+        return;
+    }
+    if (f.mode == 'G') {
+        if (P && S) run_guarded<tlx::LoserTreePointer<true, T, Cmp> >(seqs, cmp, f, out);
+        else if (P) run_guarded<tlx::LoserTreePointer<false, T, Cmp> >(seqs, cmp, f, out);
+        else if (S) run_guarded<tlx::LoserTreeCopy<true, T, Cmp> >(seqs, cmp, f, out);
+        else run_guarded<tlx::LoserTreeCopy<false, T, Cmp> >(seqs, cmp, f, out);
+    } else {
+        if (P && S) run_unguarded<tlx::LoserTreePointerUnguarded<true, T, Cmp> >(seqs, sentinel, cmp, f, out);
+        else if (P) run_unguarded<tlx::LoserTreePointerUnguarded<false, T, Cmp> >(seqs, sentinel, cmp, f, out);
+        else if (S) run_unguarded<tlx::LoserTreeCopyUnguarded<true, T, Cmp> >(seqs, sentinel, cmp, f, out);
+        else run_unguarded<tlx::LoserTreeCopyUnguarded<false, T, Cmp> >(seqs, sentinel, cmp, f, out);
+    }
+}
+
+template <typename T>
+static void by_cmp(const std::string& cmp, bool P, Flavor f, const std::vector<std::vector<long> >& keys, long sent,
+                   std::string& out) {
+    static long calls = 0;
+    if (cmp == "lt") dispatch<T>(P, f, keys, sent, KeyLess<T>(), out);
+    else if (cmp == "gt") dispatch<T>(P, f, keys, sent, KeyGreater<T>(), out);
+    else if (cmp == "st+") dispatch<T>(P, f, keys, sent, Stateful<T>(+1, &calls), out);
+    else if (cmp == "st-") dispatch<T>(P, f, keys, sent, Stateful<T>(-1, &calls), out);
+    else if (cmp == "df") { f.pass_cmp = false; dispatch<T>(P, f, keys, sent, std::less<T>(), out); }
+    else out = "?comparator";
 }
 
 int main(int argc, char** argv) {
@@ -106,44 +245,48 @@ int main(int argc, char** argv) {
     std::string line;
     while (std::getline(in, line)) {
         std::istringstream ls(line);
-        std::string vs, tok;
+        std::string head, tok;
         long sent = 0;
-        if (!(ls >> vs >> sent) || vs.size() != 3) { std::cout << "?" << std::endl; continue; }
-        Seqs seqs;
-        int serial = 0;
+        if (!(ls >> head >> sent)) { std::cout << "?" << std::endl; continue; }
+        std::vector<std::string> parts;
+        {
+            std::istringstream hs(head);
+            std::string p;
+            while (std::getline(hs, p, ':')) parts.push_back(p);
+        }
+        if (parts.empty() || parts[0].size() != 3 || (parts.size() != 1 && parts.size() != 4)) {
+            std::cout << "?" << std::endl;
+            continue;
+        }
+        const std::string vs = parts[0];
+        const std::string elem = parts.size() == 4 ? parts[1] : "e8";
+        const std::string cmp = parts.size() == 4 ? parts[2] : "lt";
+        const std::string via = parts.size() == 4 ? parts[3] : "d";
+        std::vector<std::vector<long> > keys;
         while (ls >> tok) {
-            std::vector<Key> s;
+            std::vector<long> s;
             if (tok != "-") {
                 std::istringstream ts(tok);
                 std::string n;
-                while (std::getline(ts, n, ',')) s.emplace_back(std::atoi(n.c_str()), ++serial);
+                while (std::getline(ts, n, ',')) s.push_back(std::atol(n.c_str()));
             }
-            seqs.push_back(std::move(s));
+            keys.push_back(std::move(s));
         }
-        const Key sentinel(static_cast<int>(sent), -1);
         std::string out;
-        const bool P = vs[0] == 'P', G = vs[1] == 'G', S = vs[2] == 'S';
-        if (seqs.empty()) { std::cout << "?" << std::endl; continue; }
-        const bool V = vs[1] == 'V';
-        if (V) {
-            bool ok = true;
-            for (const auto& q : seqs) if (q.empty()) ok = false;
-            if (!ok) { std::cout << "?" << std::endl; continue; }
-            if (P && S) run_general<tlx::LoserTreePointerUnguarded<true, Key, KeyLess> >(seqs, sentinel, true, out);
-            else if (P) run_general<tlx::LoserTreePointerUnguarded<false, Key, KeyLess> >(seqs, sentinel, false, out);
-            else if (S) run_general<tlx::LoserTreeCopyUnguarded<true, Key, KeyLess> >(seqs, sentinel, true, out);
-            else run_general<tlx::LoserTreeCopyUnguarded<false, Key, KeyLess> >(seqs, sentinel, false, out);
-        } else if (G) {
-            if (P && S) run_guarded<tlx::LoserTreePointer<true, Key, KeyLess> >(seqs, out);
-            else if (P) run_guarded<tlx::LoserTreePointer<false, Key, KeyLess> >(seqs, out);
-            else if (S) run_guarded<tlx::LoserTreeCopy<true, Key, KeyLess> >(seqs, out);
-            else run_guarded<tlx::LoserTreeCopy<false, Key, KeyLess> >(seqs, out);
-        } else {
-            if (P && S) run_unguarded<tlx::LoserTreePointerUnguarded<true, Key, KeyLess> >(seqs, sentinel, out);
-            else if (P) run_unguarded<tlx::LoserTreePointerUnguarded<false, Key, KeyLess> >(seqs, sentinel, out);
-            else if (S) run_unguarded<tlx::LoserTreeCopyUnguarded<true, Key, KeyLess> >(seqs, sentinel, out);
-            else run_unguarded<tlx::LoserTreeCopyUnguarded<false, Key, KeyLess> >(seqs, sentinel, out);
+        const bool P = vs[0] == 'P';
+        Flavor f{ vs[1], vs[2] == 'S', true, via.empty() ? 'd' : via[0] };
+        if (keys.empty() || (vs[0] != 'P' && vs[0] != 'C') || (f.mode != 'G' && f.mode != 'U' && f.mode != 'V') ||
+            (vs[2] != 'S' && vs[2] != 'N') || (f.via != 'd' && f.via != 's' && f.via != 'm') ||
+            (f.via == 'm' && f.mode != 'G')) {
+            std::cout << "?" << std::endl;
+            continue;
         }
+        if (elem == "e1") by_cmp<E1>(cmp, P, f, keys, sent, out);
+        else if (elem == "e8") by_cmp<E8>(cmp, P, f, keys, sent, out);
+        else if (elem == "e16") by_cmp<E16>(cmp, P, f, keys, sent, out);
+        else if (elem == "e17") by_cmp<E17>(cmp, P, f, keys, sent, out);
+        else if (elem == "e24") by_cmp<E24>(cmp, P, f, keys, sent, out);
+        else out = "?element-type";
         std::cout << out << '\n';
     }
     std::cout.flush();
